@@ -9,7 +9,24 @@ from gym_gridverse.grid_object import (Beacon, Box, Color, Door, Exit, Floor, Ke
 from gym_gridverse.state import State
 
 from ..runner import Obligation
-from ..stubs import SymRng
+from ..stubs import SymRng as _SymRng
+
+_RNG_OPTS = {}
+
+
+def SymRng(sx):
+    """the generator handed to the reset functions (all draws symbolic; optionally restricted to extreme values, see obligations)"""
+    return _SymRng(sx, **_RNG_OPTS.get('opts', {}))
+
+
+def with_extremes(h):
+    def g(sx):
+        _RNG_OPTS['opts'] = dict(extremes=True)
+        try:
+            return h(sx)
+        finally:
+            _RNG_OPTS.pop('opts', None)
+    return g
 from ..symx import sym_or
 from .common import blocks_movement
 
@@ -23,7 +40,7 @@ BOUNDS = {
                          'dynamic_obstacles 1..5 x 1..5; rooms 1..7 (layouts 1..2 x 1..2, also 0 and 3 on small shapes); memory_rooms 3x3..4x4 layout 1x1 with num_beacons 0..2 x num_exits 1..3; 4x5/5x4 layouts 1x1,1x2,2x1 (and invalid 0x1, 1x3 on 4x4) with 1 beacon, 2 exits',
                   parameters='random_agent/random_exit both values; num_obstacles in [-1, vacant+1] (<=4 vacant cells) resp. {-1..2, vacant+1}; num_rivers in [-1, 4]; river type Wall/MovingObstacle; '
                              'colour subsets: all 32 subsets for memory on one shape, {RED,BLUE},{RED,GREEN,BLUE} elsewhere; num_beacons 0..2, num_exits 1..3',
-                  draws='every outcome of every draw (integers, choice with/without replacement, shuffle)'),
+                  draws='every outcome of every draw (integers, choice with/without replacement, shuffle); additionally the shipped large shapes (7x7..13x13) with every draw at one of the two extreme values of its interval'),
     'thorough': dict(shapes='as quick plus 7x7/8x8 for the draw-poor functions, rooms 9x9 layout 2x2, memory_rooms 5x5 (1x1, 2x2) (1 beacon, 2 exits); rooms 9x9 layout 2x2 split into 81 obligations by its passage draws', parameters='as quick', draws='every outcome'),
 }
 OUTSIDE = ('the shipped 9x9..13x13 shapes of rooms / memory_rooms and large obstacle counts (10^6-10^8 draw outcomes each); only the two outcomes '
@@ -90,13 +107,15 @@ def mk_empty(H, W):
     return h
 
 
-def mk_dynamic_obstacles(H, W):
+def mk_dynamic_obstacles(H, W, ks=None):
     vac = max(0, (H - 2) * (W - 2) - 2)
 
     def h(sx):
         ra = sx.choice('random_agent', [False, True])
         k = sx.int('num_obstacles', -1, vac + 1)
-        if vac > 4:
+        if ks is not None:
+            sx.assume(sym_or(*[k == v for v in ks]))
+        elif vac > 4:
             sx.assume(sym_or(k <= 2, k > vac))
         st = call(sx, lambda: R.dynamic_obstacles(Shape(H, W), k, ra, rng=SymRng(sx)), 'dynamic_obstacles')
         if st is None:
@@ -206,7 +225,7 @@ def mk_rooms(H, W, lays, preset=None):
     def h(sx):
         lh = sx.choice('layout_h', lays)
         lw = sx.choice('layout_w', lays)
-        st = call(sx, lambda: R.rooms(Shape(H, W), (lh, lw), rng=SymRng(sx, preset=preset)), 'rooms')
+        st = call(sx, lambda: R.rooms(Shape(H, W), (lh, lw), rng=_SymRng(sx, preset=preset, **_RNG_OPTS.get('opts', {}))), 'rooms')
         if st is None:
             return
         rooms_common(sx, st, H, W, 'rooms')
@@ -279,4 +298,21 @@ def obligations(tier):
     for (H, W, lay) in [(4, 5, (1, 1)), (4, 5, (1, 2)), (5, 4, (2, 1)), (4, 4, (0, 1)), (4, 4, (1, 3))] + ([] if q else [(5, 5, (1, 1)), (5, 5, (2, 2))]):
         add(f'memory_rooms-{H}x{W}-{lay[0]}x{lay[1]}', mk_memory_rooms(H, W, lay, (1, 1), (2, 2)), dict(H=H, W=W, layout=list(lay), num_beacons=1, num_exits=2),
             must_produce('memory_rooms') if lay in [(1, 1), (1, 2), (2, 1)] else None)
+    # the shipped (large) shapes with every draw at one of the two extreme values of its interval
+    ext = [('empty-8x8', mk_empty(8, 8), 'empty'), ('empty-13x13', mk_empty(13, 13), 'empty'),
+           ('keydoor-7x7', mk_keydoor(7, 7), 'keydoor'), ('keydoor-9x9', mk_keydoor(9, 9), 'keydoor'), ('keydoor-6x10', mk_keydoor(6, 10), 'keydoor'),
+           ('teleport-7x7', mk_teleport(7, 7), 'teleport'), ('teleport-9x6', mk_teleport(9, 6), 'teleport'),
+           ('dynamic_obstacles-7x7', mk_dynamic_obstacles(7, 7), 'dynamic_obstacles'), ('dynamic_obstacles-9x9-k3..4', mk_dynamic_obstacles(9, 9, ks=[3, 4]), 'dynamic_obstacles'),
+           ('memory-9x9', mk_memory(9, 9, 'few'), 'memory'), ('memory-8x13', mk_memory(8, 13, 'few'), 'memory'),
+           ('rooms-9x9', mk_rooms(9, 9, [2]), 'rooms')]
+    if not q:
+        ext += [('crossing-9x9', mk_crossing(9, 9), 'crossing'), ('dynamic_obstacles-10x13-k5', mk_dynamic_obstacles(10, 13, ks=[5]), 'dynamic_obstacles'),
+                ('crossing-7x11', mk_crossing(7, 11), 'crossing'), ('rooms-10x10', mk_rooms(10, 10, [3]), 'rooms'), ('rooms-13x13', mk_rooms(13, 13, [3]), 'rooms'),
+                ('rooms-9x12', mk_rooms(9, 12, [2, 3]), 'rooms'),
+                ('memory_rooms-7x7', mk_memory_rooms(7, 7, (2, 2), (1, 1), (2, 2)), 'memory_rooms'), ('memory_rooms-9x9', mk_memory_rooms(9, 9, (2, 2), (1, 1), (2, 2)), 'memory_rooms'),
+                ('memory_rooms-10x10', mk_memory_rooms(10, 10, (3, 3), (1, 1), (2, 2)), 'memory_rooms'),
+                ('memory_rooms-13x13', mk_memory_rooms(13, 13, (3, 3), (1, 2), (2, 3)), 'memory_rooms'), ('keydoor-13x13', mk_keydoor(13, 13), 'keydoor'),
+                ('crossing-13x13', mk_crossing(13, 13), 'crossing')]
+    for name, h, lab in ext:
+        add('extreme-draws-' + name, with_extremes(h), dict(shape=name.split('-')[-1], draws='every integer draw at the smallest or largest value of its interval'), must_produce(lab))
     return obs
